@@ -1,7 +1,6 @@
 package props
 
 import (
-	"encoding/binary"
 	"fmt"
 	"strings"
 	"testing"
@@ -36,11 +35,12 @@ func FuzzC11Binary(f *testing.F) {
 		f.Add(s)
 	}
 	f.Fuzz(func(t *testing.T, data []byte) {
-		if len(data) >= 12 && data[0] == 0x80 {
-			// keep consistently declared bodies small enough to execute cheaply
-			if total := binary.BigEndian.Uint32(data[8:12]); total > 1<<24 && total >= uint32(binary.BigEndian.Uint16(data[2:4]))+uint32(data[4]) {
-				t.Skip()
-			}
+		// keep consistently declared bodies small enough to execute cheaply: a frame
+		// anywhere in the input that consistently declares hundreds of megabytes
+		// makes the parser allocate them (which the property allows) and sixteen
+		// workers doing so at once run the machine out of memory
+		if hugeDeclaration(true, data) {
+			t.Skip()
 		}
 		measureAlloc = len(data)%8 == 0 // allocation is measured on an eighth of the inputs (stop-the-world cost)
 		rep := parseAll(true, data)
